@@ -32,8 +32,14 @@ pub fn vpanic() -> !
 /*@ extract src/execution/state.rs :: const FANOUT
 @*/
 /*@ extract src/execution/state.rs :: struct State
-derive Clone
+derive
 @*/
+// the expansion of #[derive(Clone)] on State (field-wise clone: an O(1) copy of the Arc and the counter); verified
+impl Clone for State {
+    fn clone(&self) -> (r: Self)
+        ensures r == *self
+    { State { root: self.root.clone(), len: self.len } }
+}
 /*@ extract src/execution/state.rs :: enum Node
 derive Clone
 @*/
@@ -655,6 +661,274 @@ pub proof fn lemma_remove_step(n0: Node, b0: Branch, b1: Branch, c0: Arc<Node>, 
     }
 }
 
+// ---------------------------------------------------------------- canonical form: equal contents, equal tries
+// structural equality of two tries - what the derived `PartialEq` of Node / Branch / Leaf compares
+pub open spec fn eqv(n1: Node, n2: Node) -> bool
+    decreases n1
+{
+    match n1 {
+        Node::Leaf(l1) => n2 is Leaf && l1.key == n2->Leaf_0.key && l1.value@ == n2->Leaf_0.value@,
+        Node::Branch(b1) => {
+            &&& n2 is Branch
+            &&& b1.bitmap == n2->Branch_0.bitmap
+            &&& b1.children@.len() == n2->Branch_0.children@.len()
+            &&& forall|i: int| 0 <= i < b1.children@.len() ==> eqv(*#[trigger] b1.children@[i], *n2->Branch_0.children@[i])
+        }
+    }
+}
+
+pub proof fn lemma_bits_equal(x: u32, y: u32)
+    requires forall|c: nat| c < 32 ==> bit(x, c) == bit(y, c),
+    ensures x == y,
+{
+    assert(bit(x, 0) == bit(y, 0));
+    assert(bit(x, 1) == bit(y, 1));
+    assert(bit(x, 2) == bit(y, 2));
+    assert(bit(x, 3) == bit(y, 3));
+    assert(bit(x, 4) == bit(y, 4));
+    assert(bit(x, 5) == bit(y, 5));
+    assert(bit(x, 6) == bit(y, 6));
+    assert(bit(x, 7) == bit(y, 7));
+    assert(bit(x, 8) == bit(y, 8));
+    assert(bit(x, 9) == bit(y, 9));
+    assert(bit(x, 10) == bit(y, 10));
+    assert(bit(x, 11) == bit(y, 11));
+    assert(bit(x, 12) == bit(y, 12));
+    assert(bit(x, 13) == bit(y, 13));
+    assert(bit(x, 14) == bit(y, 14));
+    assert(bit(x, 15) == bit(y, 15));
+    assert(bit(x, 16) == bit(y, 16));
+    assert(bit(x, 17) == bit(y, 17));
+    assert(bit(x, 18) == bit(y, 18));
+    assert(bit(x, 19) == bit(y, 19));
+    assert(bit(x, 20) == bit(y, 20));
+    assert(bit(x, 21) == bit(y, 21));
+    assert(bit(x, 22) == bit(y, 22));
+    assert(bit(x, 23) == bit(y, 23));
+    assert(bit(x, 24) == bit(y, 24));
+    assert(bit(x, 25) == bit(y, 25));
+    assert(bit(x, 26) == bit(y, 26));
+    assert(bit(x, 27) == bit(y, 27));
+    assert(bit(x, 28) == bit(y, 28));
+    assert(bit(x, 29) == bit(y, 29));
+    assert(bit(x, 30) == bit(y, 30));
+    assert(bit(x, 31) == bit(y, 31));
+    assert(x == y) by (bit_vector) requires
+        ((x & (1u32 << 0u32)) != 0) == ((y & (1u32 << 0u32)) != 0),
+        ((x & (1u32 << 1u32)) != 0) == ((y & (1u32 << 1u32)) != 0),
+        ((x & (1u32 << 2u32)) != 0) == ((y & (1u32 << 2u32)) != 0),
+        ((x & (1u32 << 3u32)) != 0) == ((y & (1u32 << 3u32)) != 0),
+        ((x & (1u32 << 4u32)) != 0) == ((y & (1u32 << 4u32)) != 0),
+        ((x & (1u32 << 5u32)) != 0) == ((y & (1u32 << 5u32)) != 0),
+        ((x & (1u32 << 6u32)) != 0) == ((y & (1u32 << 6u32)) != 0),
+        ((x & (1u32 << 7u32)) != 0) == ((y & (1u32 << 7u32)) != 0),
+        ((x & (1u32 << 8u32)) != 0) == ((y & (1u32 << 8u32)) != 0),
+        ((x & (1u32 << 9u32)) != 0) == ((y & (1u32 << 9u32)) != 0),
+        ((x & (1u32 << 10u32)) != 0) == ((y & (1u32 << 10u32)) != 0),
+        ((x & (1u32 << 11u32)) != 0) == ((y & (1u32 << 11u32)) != 0),
+        ((x & (1u32 << 12u32)) != 0) == ((y & (1u32 << 12u32)) != 0),
+        ((x & (1u32 << 13u32)) != 0) == ((y & (1u32 << 13u32)) != 0),
+        ((x & (1u32 << 14u32)) != 0) == ((y & (1u32 << 14u32)) != 0),
+        ((x & (1u32 << 15u32)) != 0) == ((y & (1u32 << 15u32)) != 0),
+        ((x & (1u32 << 16u32)) != 0) == ((y & (1u32 << 16u32)) != 0),
+        ((x & (1u32 << 17u32)) != 0) == ((y & (1u32 << 17u32)) != 0),
+        ((x & (1u32 << 18u32)) != 0) == ((y & (1u32 << 18u32)) != 0),
+        ((x & (1u32 << 19u32)) != 0) == ((y & (1u32 << 19u32)) != 0),
+        ((x & (1u32 << 20u32)) != 0) == ((y & (1u32 << 20u32)) != 0),
+        ((x & (1u32 << 21u32)) != 0) == ((y & (1u32 << 21u32)) != 0),
+        ((x & (1u32 << 22u32)) != 0) == ((y & (1u32 << 22u32)) != 0),
+        ((x & (1u32 << 23u32)) != 0) == ((y & (1u32 << 23u32)) != 0),
+        ((x & (1u32 << 24u32)) != 0) == ((y & (1u32 << 24u32)) != 0),
+        ((x & (1u32 << 25u32)) != 0) == ((y & (1u32 << 25u32)) != 0),
+        ((x & (1u32 << 26u32)) != 0) == ((y & (1u32 << 26u32)) != 0),
+        ((x & (1u32 << 27u32)) != 0) == ((y & (1u32 << 27u32)) != 0),
+        ((x & (1u32 << 28u32)) != 0) == ((y & (1u32 << 28u32)) != 0),
+        ((x & (1u32 << 29u32)) != 0) == ((y & (1u32 << 29u32)) != 0),
+        ((x & (1u32 << 30u32)) != 0) == ((y & (1u32 << 30u32)) != 0),
+        ((x & (1u32 << 31u32)) != 0) == ((y & (1u32 << 31u32)) != 0);
+}
+
+// a key found in a well-formed subtree spells the subtree's path
+pub proof fn lemma_found_on_path(n: Node, k: Address, d: nat, path: Seq<u32>, root: bool)
+    requires wf(n, d, path, root), path.len() == d, lookup(n, k, d) is Some,
+    ensures on_path(k, d, path),
+    decreases n,
+{
+    match n {
+        Node::Leaf(l) => {}
+        Node::Branch(b) => {
+            let c = spec_chunk(k, d) as nat;
+            let ch = nd(b.children@[rank(b.bitmap, c) as int]);
+            lemma_found_on_path(ch, k, d + 1, path.push(c as u32), false);
+            lemma_on_path_pop(k, d, path, c as u32);
+        }
+    }
+}
+
+// a lookup that succeeds in the child for chunk c succeeds in the branch, and the key has chunk c at this depth
+pub proof fn lemma_lift(b: Branch, c: nat, k: Address, d: nat, path: Seq<u32>, root: bool)
+    requires
+        wf(Node::Branch(b), d, path, root), path.len() == d, c < 32, bit(b.bitmap, c),
+        lookup(nd(b.children@[rank(b.bitmap, c) as int]), k, d + 1) is Some,
+    ensures
+        spec_chunk(k, d) == c,
+        lookup(Node::Branch(b), k, d) == lookup(nd(b.children@[rank(b.bitmap, c) as int]), k, d + 1),
+{
+    lemma_rank_mono(b.bitmap, c, 32);
+    let ch = nd(b.children@[rank(b.bitmap, c) as int]);
+    lemma_found_on_path(ch, k, d + 1, path.push(c as u32), false);
+    lemma_on_path_pop(k, d, path, c as u32);
+}
+
+// every subtree other than the root holds at least one key
+pub proof fn lemma_witness(n: Node, d: nat, path: Seq<u32>) -> (k: Address)
+    requires wf(n, d, path, false), path.len() == d,
+    ensures lookup(n, k, d) is Some,
+    decreases n,
+{
+    match n {
+        Node::Leaf(l) => l.key,
+        Node::Branch(b) => {
+            let c = lemma_select(b.bitmap, 0, 32);
+            let ch = nd(b.children@[0]);
+            let k = lemma_witness(ch, d + 1, path.push(c as u32));
+            lemma_lift(b, c, k, d, path, false);
+            k
+        }
+    }
+}
+
+// a branch other than the root holds at least two keys (canonical shape)
+pub proof fn lemma_two_witnesses(n: Node, d: nat, path: Seq<u32>) -> (ks: (Address, Address))
+    requires n is Branch, wf(n, d, path, false), path.len() == d,
+    ensures ks.0 != ks.1, lookup(n, ks.0, d) is Some, lookup(n, ks.1, d) is Some,
+    decreases n,
+{
+    let b = n->Branch_0;
+    if b.children@.len() >= 2 {
+        let ca = lemma_select(b.bitmap, 0, 32);
+        let cb = lemma_select(b.bitmap, 1, 32);
+        let k1 = lemma_witness(nd(b.children@[0]), d + 1, path.push(ca as u32));
+        let k2 = lemma_witness(nd(b.children@[1]), d + 1, path.push(cb as u32));
+        lemma_lift(b, ca, k1, d, path, false);
+        lemma_lift(b, cb, k2, d, path, false);
+        (k1, k2)
+    } else {
+        let c = lemma_select(b.bitmap, 0, 32);
+        let ch = nd(b.children@[0]);
+        let ks = lemma_two_witnesses(ch, d + 1, path.push(c as u32));
+        lemma_lift(b, c, ks.0, d, path, false);
+        lemma_lift(b, c, ks.1, d, path, false);
+        ks
+    }
+}
+
+// THEOREM [C20.equal_contents_equal_structure]: two well-formed tries (same position) that answer every lookup alike
+// are structurally equal - the shape depends only on the contents, not on the operations that produced them
+pub proof fn theorem_canonical(n1: Node, n2: Node, d: nat, path: Seq<u32>, root: bool)
+    requires
+        wf(n1, d, path, root), wf(n2, d, path, root), path.len() == d,
+        root ==> n1 is Branch && n2 is Branch,
+        forall|k: Address| #[trigger] lookup(n1, k, d) == lookup(n2, k, d),
+    ensures
+        eqv(n1, n2),
+    decreases n1,
+{
+    match n1 {
+        Node::Leaf(l1) => {
+            assert(lookup(n1, l1.key, d) == Some(l1.value@));
+            if n2 is Branch {
+                let ks = lemma_two_witnesses(n2, d, path);
+                assert(lookup(n1, ks.0, d) is Some);
+                assert(lookup(n1, ks.1, d) is Some);
+            }
+        }
+        Node::Branch(b1) => {
+            if n2 is Leaf {
+                let l2 = n2->Leaf_0;
+                let ks = lemma_two_witnesses(n1, d, path);
+                assert(lookup(n2, ks.0, d) is Some);
+                assert(lookup(n2, ks.1, d) is Some);
+            } else {
+                let b2 = n2->Branch_0;
+                assert forall|c: nat| c < 32 implies bit(b1.bitmap, c) == bit(b2.bitmap, c) by {
+                    if bit(b1.bitmap, c) {
+                        lemma_rank_mono(b1.bitmap, c, 32);
+                        let k = lemma_witness(nd(b1.children@[rank(b1.bitmap, c) as int]), d + 1, path.push(c as u32));
+                        lemma_lift(b1, c, k, d, path, root);
+                        assert(lookup(n2, k, d) is Some);
+                    }
+                    if bit(b2.bitmap, c) {
+                        lemma_rank_mono(b2.bitmap, c, 32);
+                        let k = lemma_witness(nd(b2.children@[rank(b2.bitmap, c) as int]), d + 1, path.push(c as u32));
+                        lemma_lift(b2, c, k, d, path, root);
+                        assert(lookup(n1, k, d) is Some);
+                    }
+                }
+                lemma_bits_equal(b1.bitmap, b2.bitmap);
+                assert forall|i: int| 0 <= i < b1.children@.len() implies eqv(*#[trigger] b1.children@[i], nd(b2.children@[i])) by {
+                    let c = lemma_select(b1.bitmap, i as nat, 32);
+                    let ch1 = nd(b1.children@[i]);
+                    let ch2 = nd(b2.children@[i]);
+                    let p = path.push(c as u32);
+                    assert forall|k: Address| #[trigger] lookup(ch1, k, d + 1) == lookup(ch2, k, d + 1) by {
+                        if spec_chunk(k, d) as nat == c {
+                            assert(lookup(n1, k, d) == lookup(ch1, k, d + 1));
+                            assert(lookup(n2, k, d) == lookup(ch2, k, d + 1));
+                        } else {
+                            if lookup(ch1, k, d + 1) is Some { lemma_lift(b1, c, k, d, path, root); }
+                            if lookup(ch2, k, d + 1) is Some { lemma_lift(b2, c, k, d, path, root); }
+                        }
+                    }
+                    theorem_canonical(ch1, ch2, d + 1, p, false);
+                }
+            }
+        }
+    }
+}
+
+pub proof fn lemma_eqv_count(n1: Node, n2: Node)
+    requires eqv(n1, n2),
+    ensures count(n1) == count(n2),
+    decreases n1,
+{
+    match n1 {
+        Node::Leaf(_) => {}
+        Node::Branch(b1) => {
+            let b2 = n2->Branch_0;
+            lemma_eqv_sum(b1.children, b2.children, b1.children@.len());
+        }
+    }
+}
+
+pub proof fn lemma_eqv_sum(v1: Vec<Arc<Node>>, v2: Vec<Arc<Node>>, j: nat)
+    requires
+        v1@.len() == v2@.len(), j <= v1@.len(),
+        forall|i: int| 0 <= i < v1@.len() ==> eqv(*#[trigger] v1@[i], *v2@[i]),
+    ensures sum_upto(v1, j) == sum_upto(v2, j),
+    decreases v1, j,
+{
+    if j > 0 {
+        lemma_eqv_sum(v1, v2, (j - 1) as nat);
+        lemma_eqv_count(nd(v1@[j - 1]), nd(v2@[j - 1]));
+    }
+}
+
+// the same at the level of states: equal contents => structurally equal roots and equal length, i.e. `==` of the
+// derived PartialEq holds
+pub proof fn theorem_equal_contents_equal_states(s1: State, s2: State)
+    requires s1.inv(), s2.inv(), forall|k: Address| #[trigger] s1.find(k) == s2.find(k),
+    ensures eqv(*s1.root, *s2.root), s1.len == s2.len,
+{
+    let n1 = nd(s1.root);
+    let n2 = nd(s2.root);
+    assert forall|k: Address| #[trigger] lookup(n1, k, 0) == lookup(n2, k, 0) by {
+        assert(s1.find(k) == s2.find(k));
+    }
+    theorem_canonical(n1, n2, 0, Seq::empty(), true);
+    lemma_eqv_count(n1, n2);
+}
+
 pub mod code {
 use super::*;
 broadcast use super::axiom_key_eq;
@@ -883,6 +1157,28 @@ after `let idx = branch.child_index(VANY)?;`
 after `depth += 1;`
         proof { path = path.push(c); }
 @*/
+
+// Canary: get under a false contract (claims every lookup misses); MUST fail.
+/*@ extract src/execution/state.rs :: impl State/fn get
+as canary_get
+expect-fail
+ret r
+requires
+        self.inv(),
+ensures
+        r is None,
+before `loop {`
+        let ghost mut path: Seq<u32> = Seq::empty();
+loop 0
+        invariant
+            wf(*node, depth as nat, path, depth == 0),
+        decreases 52 - depth
+after `let idx = branch.child_index(VANY)?;`
+        let ghost c = spec_chunk(*key, depth as nat);
+        proof { lemma_rank_mono(branch.bitmap, c as nat, 32); }
+after `depth += 1;`
+        proof { path = path.push(c); }
+@*/
 }
 
 impl State {
@@ -1043,6 +1339,30 @@ before `let old = Self::remove_rec(`
 }
 
 } // mod code
+
+// THEOREM [C20.fork_never_observes_later_writes] as a verified client of the contracts: fork a state, write to BOTH sides in
+// an interleaved order; each side answers every lookup from its own writes on top of the common contents at the split and
+// never sees the other side's.  (That `state` is not touched by `fork.insert` is Rust ownership; that a shared node is
+// copied before it is written is the contract of Arc::make_mut, the only way the trie code obtains a `&mut Node`.)
+pub fn theorem_fork_isolation(state: &mut State, k1: Address, v1: AccountData, k2: Address, v2: AccountData, k3: Address)
+    requires
+        old(state).inv(), old(state).len < usize::MAX - 2,
+    ensures
+        final(state).inv(),
+        forall|k: Address| #[trigger] final(state).find(k) == (if k == k2 { Some(v2@) } else { old(state).find(k) }),
+{
+    let ghost at_split = *state;
+    let mut fork = state.clone();
+    let ghost v1s = v1@;
+    fork.insert(k1, v1);                    // write to the fork
+    state.insert(k2, v2);                   // write to the original
+    fork.remove(&k3);                       // remove from the fork
+    proof {
+        // the fork: contents at the split, plus (k1, v1), minus k3 - nothing of the original's later write
+        assert forall|k: Address| #[trigger] fork.find(k) ==
+            (if k == k3 { None } else if k == k1 { Some(v1s) } else { at_split.find(k) }) by {}
+    }
+}
 
 } // verus!
 fn main() {}
